@@ -49,6 +49,9 @@ Feat ==
   ("range_decimal"    :> <<"question", "bind_override">>) @@
   ("note_editable"    :> <<"question", "bind_override">>) @@
   ("explicit_bind_type" :> <<"question", "bind_override">>) @@
+  ("nested_repeat_bind" :> <<"repeat", "bind">>) @@       \* a repeat with logic below a (logic-free) group
+  ("empty_sections"   :> <<"group", "children">>) @@      \* a group and a repeat without rows: dumped without `children`
+  ("deep_nesting"     :> <<"question", "bind">>) @@       \* group > repeat > group > question with logic at the leaf
   ("namespaces"       :> <<"survey", "settings">>)
 Features == DOMAIN Feat
 \* transcription of what the survey's own dump deletes although the XForm depends on it
